@@ -103,7 +103,7 @@ class Tables:
              '#define ACTIVE_BITS %d' % self.active_bits, '#define RESUMABLE_BITS %d' % self.resumable_bits,
              '#define SUBLIMIT %d' % (opts.get('sublimit') or 4), '#define TASKCAP %d' % (opts.get('taskcap') or self.compo_prongs * 2),
              '#define ROOT_IS_ORTHO %d' % int(self.root.is_ortho), '#define MANUAL %d' % int(bool(opts.get('manual'))),
-             '#define BOTTOMUP %d' % int(bool(opts.get('bottomup'))), '#define HAVE_UTIL %d' % int(bool(opts.get('_util'))), '#define INJECT %d' % int(bool(opts.get('inject'))),
+             '#define BOTTOMUP %d' % int(bool(opts.get('bottomup'))), '#define HAVE_UTIL %d' % int(bool(opts.get('_util'))), '#define INJECT %d' % int(bool(opts.get('inject'))), '#define HAVE_SERIAL %d' % int(bool(opts.get('_serial'))), '#define HAVE_PLANS %d' % int(bool(opts.get('_plans'))), '#define TASKCAP_DEFAULT %d' % int(not opts.get('taskcap')),
              arr('st_parent', [n.parent.sid if n.parent else -1 for n in S]),
              arr('st_prong', [n.prong for n in S]),
              arr('st_kind', [0 if n.kind == 'L' else 1 if n.is_compo else 2 for n in S]),
@@ -390,6 +390,7 @@ struct VfLogger : M::LoggerInterface {
         L.append('%s unsigned vf_target_index(VfInst* m, unsigned s) { return m->v._core.transitionTargets[s]; }' % W)
         L.append('%s int vf_replay_prev(VfInst* dst, const VfInst* src) { return dst->v.replayTransitions(src->v.previousTransitions()); }' % W)
         L.append('%s int vf_replay_n(VfInst* dst, const VfInst* src, unsigned n) { return n ? dst->v.replayTransitions(&src->v.previousTransitions()[0], (hfsm2::Short)n) : 0; }' % W)
+        L.append('%s int vf_replay_many(VfInst* m, unsigned n, unsigned d0, unsigned k0, unsigned d1, unsigned k1) { Inst::Transition t[16]; for (unsigned i = 0; i < 16; ++i) t[i] = Inst::Transition{(hfsm2::StateID)((i & 1) ? d1 : d0), (hfsm2::TransitionType)((i & 1) ? k1 : k0)}; return m->v.replayTransitions(t, (hfsm2::Short)n); }' % W)
         if o.get('manual'):
             L.append('%s int vf_replay_enter(VfInst* dst, const VfInst* src) { return src->v.previousTransitions().count() ? dst->v.replayEnter(src->v.previousTransitions()) : 0; }' % W)
     if srep:
@@ -423,7 +424,7 @@ struct VfLogger : M::LoggerInterface {
         L.append('%s void vf_succeed(VfInst* m, unsigned s) { m->v.succeed((hfsm2::StateID)s); }' % W)
         L.append('%s void vf_fail(VfInst* m, unsigned s) { m->v.fail((hfsm2::StateID)s); }' % W)
         L.append('%s unsigned vf_task_bounds(VfInst* m, unsigned region, unsigned w) { return w ? m->v._core.planData.taskBounds[region].last : m->v._core.planData.taskBounds[region].first; }' % W)
-    o['_util'] = util
+    o['_util'] = util; o['_serial'] = serial; o['_plans'] = plans
     txt = '\n'.join(L) + '\n'
     if payload:
         mk = {'u32': 'static inline Payload mk_payload(unsigned v) { return (Payload)v; }\nstatic inline unsigned rd_payload(const Payload* p) { return p ? (unsigned)*p : 0xfffffffeu; }',
